@@ -64,6 +64,7 @@ Lemma prim_iter_facts s d M i s' d' M' L :
     /\ PInv s' M' (without a L)
     /\ merge_facts K meth s s' M M' L a b v.
 Proof.
+  clear rename_reducible untracked_grows upd_below_max eqb_le eqb_refl ltb_negtrans.
   intros HP H. pose proof HP as (HA & Hwf & HN).
   destruct (@prim_iter_greedy T K p ltb_trans ltb_irrefl meth s d M i s' d' M' L HP H)
     as (a & b & v & sz & Ha & Hb & Hab & Hv & Hmin & Hsteps & HP').
